@@ -20,6 +20,15 @@ NAMES = ['x', 'y', 'z', 'p', 'q', 'xy', 'pq', 'a-b', 'a-b-c', 'n_1.v', 'if', 'in
 OLDELSE = ['x', 'p', 'xy', 'pq', 'y']
 EXPRS = ['p', 'p+1', 'q', 'not p', 'o.a', 'p > 3', 'f()', 'y()', 'x', "q+q", 'nope']
 SAFE_TEXT = ['a', ' b ', 'line\n', '\n', ' \n', 'Hello, world.', 'x=1;', 't(1)', '', '', ' ', '[k]', '\ttab', 'é!']
+# literal text that looks like the beginning of a tag in one of the syntaxes but is a tag in none of them
+NEAR_TEXT = ['&dtml-lang=', ' &dtml.x ', 'a&b', '&dt', '<b>', '</b>', '<!-- c -->', '<d', '5% x', '&amp;', '&dtml', '<dtml', '&dtml-',
+             '?p=2&dtml-q=', '&dtml.', '( %) ', '<!--x', '-->']
+
+
+def text_atom(rng):
+    return rng.choice(NEAR_TEXT) if rng.random() < 0.22 else rng.choice(SAFE_TEXT)
+
+
 VAR_OPTS = [('lower', None), ('upper', None), ('html_quote', None), ('capitalize', None), ('size', '3'), ('etc', '..'),
             ('fmt', 'upper'), ('null', 'nil'), ('missing', 'gone'), ('url_quote', None), ('newline_to_br', None),
             ('thousands_commas', None), ('spacify', None), ('sql_quote', None)]
@@ -38,7 +47,7 @@ def gen_body(rng, depth, forbid=None):
     n = rng.choice((1, 1, 2))
     out = []
     for _ in range(n):
-        out.append(('text', rng.choice(SAFE_TEXT)))
+        out.append(('text', text_atom(rng)))
         if depth >= 0 and rng.random() < 0.12:
             # the deprecated stand-alone <dtml-else name> block (= unless); directly inside an if / in it must not
             # repeat that block's own name, or it would be a continuation tag
@@ -46,7 +55,7 @@ def gen_body(rng, depth, forbid=None):
             out.append(('oldelse', ('n', rng.choice(names)), gen_body(rng, max(depth - 1, -1))))
             continue
         out.append(gen_node(rng, depth))
-    out.append(('text', rng.choice(SAFE_TEXT)))
+    out.append(('text', text_atom(rng)))
     return out
 
 
@@ -428,7 +437,7 @@ def main(tier):
                    'option alone; each printed in 4-7 distinct spellings; each spelling rendered under 3 namespaces',
            'samples': [{'spellings': cases[i]['spellings']} for i in (3, len(cases) // 2, len(cases) - 2)]}
     return V.finish(cov, assumptions=['expressions are drawn from a pool printable in all three syntaxes',
-                                      'literal text avoids < & % so that it is tag-free in every syntax'])
+                                      'literal text is tag-free in every syntax; about a fifth of the text slots hold near-tag fragments (&dtml- without ;, <d, <!-- c -->, 5% x ...)'])
 
 
 def replay_file(path):
